@@ -430,3 +430,13 @@ pub fn run_follow(tables: &Tables, stmt: &Statement, content: &[u8]) -> Outcome<
         Err(p) => Outcome::Panic(p),
     }
 }
+
+/// run the real command line program (release build in target/cli): returns (stdout lines, stderr, exit ok)
+pub fn run_cli(args: &[&str]) -> Option<(Vec<String>, String, bool)> {
+    let bin = format!("{}/target/cli/release/sqlgrep", crate::core::verif_dir());
+    if !std::path::Path::new(&bin).exists() {
+        return None;
+    }
+    let out = std::process::Command::new(&bin).args(args).output().ok()?;
+    Some((String::from_utf8_lossy(&out.stdout).lines().map(|l| l.to_string()).collect(), String::from_utf8_lossy(&out.stderr).to_string(), out.status.success()))
+}
